@@ -35,7 +35,8 @@ func (e *Explorer) visit(key uint64, dev int) bool {
 	if !e.Prune {
 		return true
 	}
-	if old, ok := e.seen[key]; ok && old <= dev {
+	if old, ok := e.seen[key]; ok && (old <= dev || e.Bound >= 1<<29) {
+		// expanded before with at least as much deviation budget left (with an unbounded budget: expanded before at all)
 		return false
 	}
 	if _, ok := e.seen[key]; !ok {
